@@ -204,34 +204,344 @@ theorem params_step {env : Env} {C : Query → Prop} {n : Nat} (ih : RefAt env C
           rw [hp] at hS2 hw2
           simp only at hS2 hw2
           have hve : v'.isError = false := hve.symm
-          have fin : ∀ r', (r = .inr .unmodelled → r' = .inr .unmodelled) →
-              (∀ c2, (match ((r, c2) : (List PVal ⊕ Outcome) × List Str) with
-                | (.inl rest, c2) => ((.inl (.expanded v'.data pos :: rest), c1 ++ c2) : (List PVal ⊕ Outcome) × List Str)
-                | (.inr o2, c2) => (.inr o2, c1 ++ c2)) = (r', c1 ++ c2)) →
-              RefinesP env w w2 r' (fun m => refParams env m (Param.link lq pos :: ps) raw parent) := by
-            intro r' hr' hmatch
+          cases r <;> (
             refine ⟨hS2, fun hne => ?_⟩
-            have hrne : r ≠ .inr .unmodelled := fun hu => hne (hr' hu)
-            obtain ⟨m2, c2', g1, g2, g3⟩ := hw2 hrne
+            obtain ⟨m2, c2', g1, g2, g3⟩ := hw2 (by first | exact Sum.inl_ne_inr | exact hne)
             rcases hr2 : refParams env m2 ps raw parent with ⟨r2, c2⟩
             simp only [hr2] at g2 g3
             subst g3
             have hlM : refLink env (max m m2) lq parent = (.st v', c1) := by
               rw [refLink_mono_le env (Nat.le_max_left m m2) lq parent (by rw [hr]; simp), hr]
-            have hpM : refParams env (max m m2) ps raw parent = (r2, c2) := by
-              rw [refParams_mono_le env (Nat.le_max_right m m2) ps raw parent (by rw [hr2]; exact hrne), hr2]
+            have hpM := refParams_mono_le env (Nat.le_max_right m m2) ps raw parent
+                (by rw [hr2]; first | exact Sum.inl_ne_inr | exact hne)
+            rw [hr2] at hpM
             refine ⟨max m m2 + 1, c1' ++ c2', ?_, ?_, ?_⟩
             · rw [g1, h1, List.append_assoc]
-            · simp only [refParams_link, hlM, hve, Bool.false_eq_true, if_false, hpM, hmatch]
+            · simp only [refParams_link, hlM, hve, Bool.false_eq_true, if_false, hpM]
               exact h2.append g2
-            · simp only [refParams_link, hlM, hve, Bool.false_eq_true, if_false, hpM, hmatch]
-          cases r with
-          | inl rest => exact fin _ (by simp) (fun c2 => by rw [hvd])
-          | inr o => exact fin _ (by simp) (fun c2 => rfl)
+            · simp only [refParams_link, hlM, hve, Bool.false_eq_true, if_false, hpM, hvd])
         · simp only [if_true]
           have hve : v'.isError = true := by rw [← hve, hv]
           refine ⟨hS1, fun _ => ⟨m+1, c1', h1, ?_, ?_⟩⟩
           · simp only [refParams_link, hr, hve, if_true]; exact h2
           · simp only [refParams_link, hr, hve, if_true]
+
+/-! ### actions -/
+
+theorem act_step {env : Env} {C : Query → Prop} {n : Nat} (ih : RefAt env C n) (w : World) (st : EState) (a : Action)
+    (raw parent : Str) (extra : Extra) (uc : Bool) (hS : Sound env w) (hL : LinksIn C a.params) :
+    Refines env w (evalAction env (n+1) w st a raw parent extra uc).1 (evalAction env (n+1) w st a raw parent extra uc).2
+      (fun m => refAction env m st a raw parent extra) := by
+  rw [evalAction_succ]
+  have hS0 := hS.storeMeta raw (s "evaluation")
+  split
+  · exact ⟨hS0, by simp⟩
+  · next nss hns =>
+    split
+    · exact ⟨hS0, by simp⟩
+    · next hl =>
+      split
+      · next hr =>
+        refine ⟨hS0.storeMeta _ _, fun _ => ⟨1, [], by simp, by simp, ?_⟩⟩
+        simp only [refAction_succ, hns, hl, hr]; exact Outcome.sim_refl _
+      · next sig hr =>
+        obtain ⟨hS1, hw⟩ := ih.params (w.storeMeta raw (s "evaluation")) a.params raw parent hS0 hL
+        rcases hp : evalParams env n (w.storeMeta raw (s "evaluation")) a.params raw parent with ⟨w1, r⟩
+        rw [hp] at hS1 hw
+        simp only [World.calls_storeMeta] at hS1 hw
+        cases r with
+        | inr o =>
+          refine ⟨hS1, fun hne => ?_⟩
+          obtain ⟨m, c', h1, h2, h3⟩ := hw (fun hu => hne (by simpa using hu))
+          rcases hr1 : refParams env m a.params raw parent with ⟨r', c1⟩
+          simp only [hr1] at h2 h3
+          subst h3
+          refine ⟨m+1, c', h1, ?_, ?_⟩
+          · simp only [refAction_succ, hns, hl, hr, hr1]; exact h2
+          · simp only [refAction_succ, hns, hl, hr, hr1]; exact Outcome.sim_refl _
+        | inl given =>
+          obtain ⟨hS2, hw2⟩ := call_refines ih w1 st a raw sig (applyExtra extra given) hS1
+          refine ⟨hS2, fun hne => ?_⟩
+          obtain ⟨m, c1', h1, h2, h3⟩ := hw (by simp)
+          obtain ⟨m2, c2', g1, g2, g3⟩ := hw2 hne
+          rcases hr1 : refParams env m a.params raw parent with ⟨r', c1⟩
+          simp only [hr1] at h2 h3
+          subst h3
+          have hpM := refParams_mono_le env (Nat.le_max_left m m2) a.params raw parent (by rw [hr1]; simp)
+          rw [hr1] at hpM
+          have hcM := refCall_mono_le env (Nat.le_max_right m m2) st a raw sig (applyExtra extra given)
+            (Outcome.sim_ne_unmodelled g3 hne)
+          refine ⟨max m m2 + 1, c1' ++ c2', ?_, ?_, ?_⟩
+          · rw [g1, h1, List.append_assoc]
+          · simp only [refAction_succ, hns, hl, hr, hpM, hcM]; exact h2.append g2
+          · simp only [refAction_succ, hns, hl, hr, hpM, hcM]; exact g3
+
+/-! ### texts -/
+
+theorem text_step {env : Env} {C : Query → Prop} {n : Nat} (hC : Closed env C) (ih : RefAt env C n) (w : World) (t : Str)
+    (ug : Bool) (hS : Sound env w) :
+    Refines env w (evalText env (n+1) w t ug).1 (evalText env (n+1) w t ug).2 (fun m => refText env m t) := by
+  rw [evalText_succ]
+  split
+  · next hp =>
+    refine ⟨hS, fun _ => ⟨1, [], by simp, by simp, ?_⟩⟩
+    simp only [refText_succ, hp]; exact Outcome.sim_refl _
+  · next q hp =>
+    obtain ⟨hS1, hw⟩ := ih.q w q t .none none ug hS (hC.text t q hp) (fun _ => rfl)
+    refine ⟨hS1, fun hne => ?_⟩
+    obtain ⟨m, c', h1, h2, h3⟩ := hw hne
+    exact ⟨m+1, c', h1, by simp only [refText_succ, hp]; exact h2, by simp only [refText_succ, hp]; exact h3⟩
+
+/-! ### queries -/
+
+theorem Refines.of_calls_eq {env : Env} {w0 w w' : World} {o f} (h : Refines env w0 w' o f) (hc : w0.calls = w.calls) :
+    Refines env w w' o f := by
+  unfold Refines at h ⊢; rw [hc] at h; exact h
+
+theorem pre_refines {env : Env} {C : Query → Prop} {n : Nat} (hC : Closed env C) (ih : RefAt env C n) (w : World)
+    (q : Query) (raw : Str) (input : Option Val) (uc : Bool) (hS : Sound env w) (hCq : C q)
+    (huc : uc = true → input = none) :
+    Refines env w (evalPre env n w q raw input uc).1 (evalPre env n w q raw input uc).2
+      (fun m => refPre env m q input) := by
+  unfold evalPre refPre
+  split
+  · exact ⟨hS, fun _ => ⟨0, [], by simp, by simp, Outcome.sim_refl _⟩⟩
+  · next p hp =>
+    obtain ⟨r, hpr, _⟩ := Query.preQ_some hp
+    exact (ih.q (w.storeMeta raw (s "evaluating parent")) p _ .none input uc (hS.storeMeta _ _)
+      (hC.pred q p r hCq hpr) huc).of_calls_eq (by simp)
+
+/-- a state that is, up to status, the successful cacheable reference value of `q` (under any spelling and
+extra parameters) may be stored under the canonical text of `q`: this is where `CanonStore` is used -/
+theorem store_ok {env : Env} {q : Query} (hcs : CanonStore env q) {M : Nat} {raw : Str} {extra : Extra}
+    {s' : EState} (href : (refQ env M q raw extra none).1 = .st s')
+    (s : EState) (hcore : s.core = s'.core) (he : s.isError = false) (hv : s.volatile = false) (hc : s.caching = true)
+    (hq : s.query = q.encode Gen.escapeTable) :
+    ∃ fuel st'' c, refText env fuel s.query = (.st st'', c) ∧ st''.isError = false ∧ st''.volatile = false ∧
+      st''.caching = true ∧ s.core = st''.core := by
+  have he' : s'.isError = false := by rw [← EState.core_isError hcore]; exact he
+  have hv' : s'.volatile = false := by rw [← EState.core_volatile hcore]; exact hv
+  have h1 := refQ_good_indep env (q.encode Gen.escapeTable) M q raw extra none s' href he' (Or.inr hv')
+  rcases hr : refQ env M q raw extra none with ⟨o, c⟩
+  rw [hr] at href h1
+  simp only at href; subst href
+  obtain ⟨fuel', st'', c', hrt, hcore'⟩ := hcs M s' c h1 he'
+  have hcc := hcore.trans hcore'
+  refine ⟨fuel', st'', c', by rw [hq]; exact hrt, ?_, ?_, ?_, hcc⟩
+  · rw [← EState.core_isError hcc]; exact he
+  · rw [← EState.core_volatile hcc]; exact hv
+  · rw [← EState.core_caching hcc]; exact hc
+
+theorem refQ_succ_of_pre {env : Env} {M : Nat} {q : Query} {raw : Str} {extra : Extra} {input : Option Val}
+    {o' : Outcome} {c0 : List Str} (hres : q.isRes = false) (hpre : refPre env M q input = (o', c0)) :
+    refQ env (M+1) q raw extra input =
+      ((refAfter env M o' q.preParent q.preRem (q.encode Gen.escapeTable) raw extra).1,
+        c0 ++ (refAfter env M o' q.preParent q.preRem (q.encode Gen.escapeTable) raw extra).2) := by
+  rw [refQ_succ', hpre]; simp [hres]
+
+theorem Sound.admitW {env : Env} {w : World} (h : Sound env w) (uc : Bool) (key : Str) (st3 : EState)
+    (hstore : uc = true → st3.isError = false → st3.volatile = false → st3.caching = true →
+      ∃ fuel st' c, refText env fuel st3.query = (.st st', c) ∧ st'.isError = false ∧
+        st'.volatile = false ∧ st'.caching = true ∧ st3.core = st'.core) :
+    Sound env (admitW uc key st3 w) := by
+  unfold Liquer.admitW
+  split
+  · exact h
+  · next huc =>
+    split
+    · next hadm =>
+      simp only [Bool.and_eq_true, Bool.not_eq_true', Bool.not_eq_eq_eq_not, Bool.not_true] at hadm huc
+      exact h.store st3 (hstore (by simpa using huc) hadm.1.2 hadm.2 hadm.1.1)
+    · split
+      · exact h.storeMeta _ _
+      · exact h.remove _
+
+theorem Sound.fileW {env : Env} {w : World} (h : Sound env w) (uc : Bool) (key : Str) (st2 : EState)
+    (hstore : uc = true → st2.volatile = false → st2.caching = true →
+      ∃ fuel st' c, refText env fuel st2.query = (.st st', c) ∧ st'.isError = false ∧
+        st'.volatile = false ∧ st'.caching = true ∧ st2.core = st'.core) :
+    Sound env (fileW uc key st2 w) := by
+  unfold Liquer.fileW
+  split
+  · exact h
+  · next huc =>
+    split
+    · next hadm =>
+      simp only [Bool.and_eq_true, Bool.not_eq_true', Bool.not_eq_eq_eq_not, Bool.not_true] at hadm huc
+      exact h.store st2 (hstore (by simpa using huc) hadm.2 hadm.1)
+    · exact h.remove _
+
+theorem q_step {env : Env} {C : Query → Prop} {n : Nat} (hC : Closed env C) (hcanon : ∀ q, C q → CanonOK env q)
+    (ih : RefAt env C n) (w : World) (q : Query) (raw : Str) (extra : Extra) (input : Option Val) (uc : Bool)
+    (hS : Sound env w) (hCq : C q) (huc : uc = true → input = none) :
+    Refines env w (evalQ env (n+1) w q raw extra input uc).1 (evalQ env (n+1) w q raw extra input uc).2
+      (fun m => refQ env m q raw extra input) := by
+  rw [evalQ_succ']
+  split
+  · next st hhit =>
+    -- cache hit: `Sound` gives the reference value of the key text, `CanonHit` that of the query
+    have hcond : (extra.isEmpty && input.isNone && uc) = true ∧ w.get (q.encode Gen.escapeTable) = some st := by
+      split at hhit
+      · exact ⟨‹_›, hhit⟩
+      · simp at hhit
+    obtain ⟨hcond, hget⟩ := hcond
+    simp only [Bool.and_eq_true] at hcond
+    obtain ⟨⟨hxe, hin⟩, _⟩ := hcond
+    have hin : input = none := by cases input <;> simp_all
+    subst hin
+    obtain ⟨fuel, st', c, hrt, he, hv, hc, hcore⟩ := hS.get hget
+    obtain ⟨fuel', st'', c', hrq, hcore'⟩ := (hcanon q hCq).1 fuel st' c hrt he
+    have he'' : st''.isError = false := by rw [← EState.core_isError hcore']; exact he
+    have := refQ_good_indep' env raw fuel' q _ extra none st'' (by rw [hrq]) he'' hxe
+    refine ⟨hS, fun _ => ⟨fuel', [], by simp, by simp, ?_⟩⟩
+    simp only [this, hrq]; exact hcore.trans hcore'
+  · split
+    · exact ⟨hS, by simp⟩
+    · next hres =>
+      have hres : q.isRes = false := by simpa using hres
+      obtain ⟨hS1, hw⟩ := pre_refines hC ih w q raw input uc hS hCq huc
+      rcases hpre : evalPre env n w q raw input uc with ⟨w1, o⟩
+      rw [hpre] at hS1 hw
+      simp only at hS1 hw ⊢
+      unfold evalAfter
+      cases o with
+      | unmodelled => exact ⟨hS1, by simp⟩
+      | raised a b =>
+        refine ⟨hS1, fun _ => ?_⟩
+        obtain ⟨m1, c', h1, h2, h3⟩ := hw (by simp)
+        rcases hr1 : refPre env m1 q input with ⟨o', c0⟩
+        simp only [hr1, Outcome.sim_raised] at h2 h3
+        subst h3
+        refine ⟨m1+1, c', h1, ?_, ?_⟩
+        · simp only [refQ_succ_of_pre hres hr1, refAfter, List.append_nil]; exact h2
+        · simp only [refQ_succ_of_pre hres hr1, refAfter]; exact Outcome.sim_refl _
+      | parseError =>
+        refine ⟨hS1, fun _ => ?_⟩
+        obtain ⟨m1, c', h1, h2, h3⟩ := hw (by simp)
+        rcases hr1 : refPre env m1 q input with ⟨o', c0⟩
+        simp only [hr1, Outcome.sim_parseError] at h2 h3
+        subst h3
+        refine ⟨m1+1, c', h1, ?_, ?_⟩
+        · simp only [refQ_succ_of_pre hres hr1, refAfter, List.append_nil]; exact h2
+        · simp only [refQ_succ_of_pre hres hr1, refAfter]; exact Outcome.sim_refl _
+      | st st =>
+        obtain ⟨m1, c', h1, h2, h3⟩ := hw (by simp)
+        rcases hr1 : refPre env m1 q input with ⟨o', c0⟩
+        simp only [hr1] at h2 h3
+        obtain ⟨st', rfl, hcore⟩ := Outcome.sim_st_left h3
+        have hse := EState.core_isError hcore
+        have hst := EState.core_eq_withStatus hcore
+        simp only
+        cases hserr : st.isError
+        · -- successful predecessor: the last step
+          have hserr' : st'.isError = false := by rw [← hse]; exact hserr
+          simp only [Bool.false_eq_true, if_false]
+          unfold evalPost
+          generalize hrem : q.preRem = r
+          split
+          · -- no step
+            refine ⟨hS1, fun _ => ⟨m1+1, c', h1, ?_, ?_⟩⟩
+            · simp only [refQ_succ_of_pre hres hr1, refAfter, hserr', Bool.false_eq_true, if_false, hrem, refPost,
+                List.append_nil]; exact h2
+            · simp only [refQ_succ_of_pre hres hr1, refAfter, hserr', Bool.false_eq_true, if_false, hrem, refPost]
+              rw [hst]; rfl
+          · -- file name
+            next hd f =>
+            have href : (refQ env (m1+1) q raw extra input) =
+                (.st { st' with filename := some f, extension := some (extensionOf f), query := q.encode Gen.escapeTable },
+                  c0) := by
+              simp only [refQ_succ_of_pre hres hr1, refAfter, hserr', Bool.false_eq_true, if_false, hrem, refPost,
+                List.append_nil]
+            have hcore2 : ({ st with filename := some f, extension := some (extensionOf f), query := q.encode Gen.escapeTable } : EState).core =
+                ({ st' with filename := some f, extension := some (extensionOf f), query := q.encode Gen.escapeTable } : EState).core := by
+              rw [hst]; rfl
+            refine ⟨(hS1.storeMeta _ _).fileW _ _ _ ?_, fun _ => ⟨m1+1, c', by simpa using h1, ?_, ?_⟩⟩
+            · intro hu hv hc
+              have hin := huc hu; subst hin
+              exact store_ok (hcanon q hCq).2 (by rw [href]) _ hcore2 hserr hv hc rfl
+            · rw [href]; exact h2
+            · rw [href]; exact hcore2
+          · -- action
+            next hd a =>
+            obtain ⟨p0, hp0⟩ := Query.preRem_some hrem
+            have hL : LinksIn C a.params := fun lq pos hmem => hC.link q p0 hd a lq pos hCq hp0 hmem
+            obtain ⟨hS2, hw2⟩ := ih.act w1 st a raw q.preParent extra uc hS1 hL
+            rcases hact : evalAction env n w1 st a raw q.preParent extra uc with ⟨w2, o2⟩
+            rw [hact] at hS2 hw2
+            simp only at hS2 hw2 ⊢
+            -- the reference side at a common fuel
+            have key : o2 ≠ .unmodelled → ∃ M c2' o2' c2, w2.calls = w1.calls ++ c2' ∧ c2'.Sublist c2 ∧ Outcome.sim o2 o2' ∧
+                refPre env M q input = (.st st', c0) ∧ refAction env M st' a raw q.preParent extra = (o2', c2) := by
+              intro hne
+              obtain ⟨m2, c2', g1, g2, g3⟩ := hw2 hne
+              rw [refAction_core env m2 hcore] at g2 g3
+              refine ⟨max m1 m2, c2', _, _, g1, g2, g3, ?_, ?_⟩
+              · rw [refPre_mono_le env (Nat.le_max_left m1 m2) q input (by rw [hr1]; simp), hr1]
+              · rw [refAction_mono_le env (Nat.le_max_right m1 m2) st' a raw q.preParent extra
+                  (Outcome.sim_ne_unmodelled g3 hne)]
+            cases o2 with
+            | unmodelled => exact ⟨hS2, by simp⟩
+            | raised x y =>
+              refine ⟨hS2, fun _ => ?_⟩
+              obtain ⟨M, c2', o2', c2, g1, g2, g3, hpM, haM⟩ := key (by simp)
+              simp only [Outcome.sim_raised] at g3; subst g3
+              refine ⟨M+1, c' ++ c2', by rw [g1, h1, List.append_assoc], ?_, ?_⟩
+              · simp only [refQ_succ_of_pre hres hpM, refAfter, hserr', Bool.false_eq_true, if_false, hrem, refPost, haM]
+                exact h2.append g2
+              · simp only [refQ_succ_of_pre hres hpM, refAfter, hserr', Bool.false_eq_true, if_false, hrem, refPost, haM]
+                exact Outcome.sim_refl _
+            | parseError =>
+              refine ⟨hS2, fun _ => ?_⟩
+              obtain ⟨M, c2', o2', c2, g1, g2, g3, hpM, haM⟩ := key (by simp)
+              simp only [Outcome.sim_parseError] at g3; subst g3
+              refine ⟨M+1, c' ++ c2', by rw [g1, h1, List.append_assoc], ?_, ?_⟩
+              · simp only [refQ_succ_of_pre hres hpM, refAfter, hserr', Bool.false_eq_true, if_false, hrem, refPost, haM]
+                exact h2.append g2
+              · simp only [refQ_succ_of_pre hres hpM, refAfter, hserr', Bool.false_eq_true, if_false, hrem, refPost, haM]
+                exact Outcome.sim_refl _
+            | st st2 =>
+              obtain ⟨M, c2', o2', c2, g1, g2, g3, hpM, haM⟩ := key (by simp)
+              obtain ⟨st2', rfl, hcore2⟩ := Outcome.sim_st_left g3
+              have hst2 := EState.core_eq_withStatus hcore2
+              have href : (refQ env (M+1) q raw extra input) =
+                  (.st { st2' with query := q.encode Gen.escapeTable }, c0 ++ c2) := by
+                simp only [refQ_succ_of_pre hres hpM, refAfter, hserr', Bool.false_eq_true, if_false, hrem, refPost, haM]
+              have hcore3 : ({ st2 with query := q.encode Gen.escapeTable } : EState).core =
+                  ({ st2' with query := q.encode Gen.escapeTable } : EState).core := by
+                rw [hst2]; rfl
+              refine ⟨hS2.admitW _ _ _ ?_, fun _ => ⟨M+1, c' ++ c2', ?_, ?_, ?_⟩⟩
+              · intro hu he hv hc
+                have hin := huc hu; subst hin
+                exact store_ok (hcanon q hCq).2 (by rw [href]) _ hcore3 he hv hc rfl
+              · simp only [calls_admitW]; rw [g1, h1, List.append_assoc]
+              · rw [href]; exact h2.append g2
+              · rw [href]; exact hcore3
+          · exact ⟨hS1, by simp⟩
+        · -- failed predecessor: propagated
+          have hserr' : st'.isError = true := by rw [← hse]; exact hserr
+          simp only [if_true]
+          refine ⟨hS1.storeMeta _ _, fun _ => ⟨m1+1, c', by simpa using h1, ?_, ?_⟩⟩
+          · simp only [refQ_succ_of_pre hres hr1, refAfter, hserr', if_true, List.append_nil]; exact h2
+          · simp only [refQ_succ_of_pre hres hr1, refAfter, hserr', if_true]
+            rw [hst]; rfl
+
+/-! ### the refinement theorem -/
+
+theorem refAt_zero (env : Env) (C : Query → Prop) : RefAt env C 0 where
+  text := fun w t ug hS => by rw [evalText_zero]; exact ⟨hS, by simp⟩
+  q := fun w q raw extra input uc hS _ _ => by rw [evalQ_zero]; exact ⟨hS, by simp⟩
+  act := fun w st a raw parent extra uc hS _ => by rw [evalAction_zero]; exact ⟨hS, by simp⟩
+  params := fun w ps raw parent hS _ => by rw [evalParams_zero]; exact ⟨hS, by simp⟩
+
+/-- R-eval: for every fuel, all four evaluator functions refine their reference counterparts -/
+theorem refines {env : Env} {C : Query → Prop} (hC : Closed env C) (hcanon : ∀ q, C q → CanonOK env q) :
+    ∀ n, RefAt env C n
+  | 0 => refAt_zero env C
+  | n + 1 =>
+    have ih := refines hC hcanon n
+    { text := fun w t ug hS => text_step hC ih w t ug hS
+      q := fun w q raw extra input uc hS hCq huc => q_step hC hcanon ih w q raw extra input uc hS hCq huc
+      act := fun w st a raw parent extra uc hS hL => act_step ih w st a raw parent extra uc hS hL
+      params := fun w ps raw parent hS hL => params_step ih w ps raw parent hS hL }
 
 end Liquer
